@@ -1323,6 +1323,7 @@ func (c *Client) Status() (*ClientStatus, error) {
 	if err != nil {
 		return nil, fmt.Errorf("invalid pending queue, %v", err)
 	}
+	verifGate("status.mid")
 	r, err := c.Results()
 	if err != nil {
 		return nil, fmt.Errorf("invalid results queue, %v", err)
